@@ -12,7 +12,9 @@ REGS = ["rax", "rbx", "rcx", "rdx", "rsi", "rdi", "rbp", "rsp", "r8", "r9", "r10
 def deref_rule(g):
     a, b = g.pick(REGS), g.pick(REGS)
     c = g.pick([1, 2, 4, 8])
-    k = g.pick(["0x8", "0x10", "0x0", "0x1c", "-0x8", "-0x10", "0x100", "8"])
+    # displacements whose last digits are letters that also occur in register names (a, b, c, d, e): a normaliser that
+    # trims characters instead of a substring would eat them
+    k = g.pick(["0x8", "0x10", "0x0", "0x1c", "-0x8", "-0x10", "0x100", "8", "0x1a", "0x2b", "0xdc", "-0xa", "0x3d", "0xbad"])
     d = {"main_reg": ("%" + a) if g.chance(0.5) else a}
     shape = g.int(0, 7)
     if shape & 1:
@@ -42,7 +44,7 @@ def near_operands(g, a, b, c, k, shape):
         elif shape & 2:
             inner += ",,%s" % c
         return (k if shape & 4 else "") + "(" + inner + ")"
-    out = [mem(a, b, c, k, shape if shape & 3 in (0, 3) else (shape | 3))]
+    out = [mem(a, b, c, k, shape if (shape & 3) in (0, 1, 3) else (shape | 3))]
     out.append(mem(g.pick(REGS), b, c, k, shape | 3))
     out.append(mem(a, g.pick(REGS), c, k, shape | 3))
     out.append(mem(a, b, g.pick([1, 2, 4, 8]), k, shape | 3))
